@@ -14,6 +14,20 @@ Proof. vm_compute. reflexivity. Qed.
 Lemma order_checked : check_order = true.
 Proof. vm_compute. reflexivity. Qed.
 
+Lemma keyupdate_checked : check_keyupdate = true.
+Proof. vm_compute. reflexivity. Qed.
+
+(* the shape a seeded change produced (reply KeyUpdate sent in one critical
+   section of c.out, key switched in the next) is rejected *)
+Definition split_key_update : xprog :=
+  [AssertP PDone; B (Acquire "in");
+   B (Acquire "out"); B (Write "@writeRecord"); B (Release "out");
+   B (Acquire "out"); B (Read "out.trafficSecret"); B (Write "out.trafficSecret"); B (Release "out");
+   B (Release "in")]%string.
+
+Lemma split_key_update_rejected : key_switch_atomic [] KUnknown false split_key_update = false.
+Proof. vm_compute. reflexivity. Qed.
+
 Lemma summary_checked : summary_ok = true.
 Proof. vm_compute. reflexivity. Qed.
 
